@@ -426,12 +426,11 @@ def run_sess(case):
             entries = []
         syms = [e for e in entries if e.type == 'symlink'][:1]
         out['link_parsed'] = L(syms[0].name) if syms else None
-        obj = PF.FTPProcessorSession.__new__(PF.FTPProcessorSession)
-        obj._processor = NS(fetch_params=NS(retr_symlinks=False))
-        obj._item_session = NS(app_session=NS(factory={'PathNamer': pn}), url_record=NS(level=0), add_child_url=lambda *a, **k: None)
-        obj._file_writer_session = session
-        obj._glob_pattern = None
-        obj._fetch_rule = NS(check_ftp_request=lambda item_session: (False, None))
+        # built by the real constructor from fakes (no private attribute is named here: a maintenance rename must not matter)
+        factory = {'PathNamer': pn, 'FetchRule': NS(check_ftp_request=lambda item_session: (False, None)), 'ResultRule': NS(),
+                   'FileWriter': NS(session=lambda: session)}
+        obj = PF.FTPProcessorSession(NS(fetch_params=NS(retr_symlinks=False)),
+                                     NS(app_session=NS(factory=factory), url_record=NS(level=0), add_child_url=lambda *a, **k: None))
         try:
             obj._add_listing_links(NS(files=syms, request=NS(url_info=NS(url='ftp://h/d/'))))
             out['symlink'] = {'ok': syml[-1] if syml else None}
